@@ -35,6 +35,7 @@ INERT_CALLS = {"len", "int", "float", "range", "enumerate", "sorted", "zip", "li
                "np.mean", "np.sqrt", "np.std", "np.array", "np.asarray"}
 MUTATORS = {"append", "sort", "insert", "pop", "clear", "extend", "remove", "reverse"}
 RESERVED = {"rank", "record", "bins", "mins", "maxs", "rest_", "e", "events", "zero", "x", "r", "toNat", "edge", "n",
+            "item", "lo", "hi", "value", "t1", "bins1", "a1", "a2",
             "if", "then", "else", "match", "with", "fun", "let", "do", "end", "at", "from", "have", "show", "in"}
 
 
@@ -684,7 +685,263 @@ def check_init(cls, init, create, lookup):
             raise U("class-level attribute (shared state) in CentralityClasses", st)
 
 
-def render(source: str):
+# ===================================================================================================================
+#  __init__: edge cleaning (sortedness test + in-place sort, duplicate removal, range check)
+# ===================================================================================================================
+class Init:
+    """`__init__` -> `genInit lo hi bins : Except Err (List γ)` (the list that becomes `centrality_bins_`, or the
+    ValueError of the range check), with the two loops `genSortedLoop` (the `all(...)` generator) and `genDedupLoop`
+    (the `for item in centrality_bins` loop with its list and its set).  `0` / `0.0` and `100` / `100.0` of the range
+    check are the parameters `lo` / `hi` (the model is order-only); warnings, the duplicate flag and the argument type
+    checks (`TypeError`) are not modelled."""
+
+    def __init__(self, source, fn):
+        self.source = source
+        self.fn = fn
+        params = [a.arg for a in fn.args.args]
+        if len(params) != 3 or fn.args.vararg or fn.args.kwarg or fn.args.kwonlyargs:
+            raise U("__init__ does not take exactly (self, events_multiplicity, centrality_bins)", fn)
+        self.params = params
+        self.P = None
+        self.sorted_def = None
+        self.dedup_def = None
+        self.nt = 0
+
+    @staticmethod
+    def is_warn(st):
+        return isinstance(st, ast.Expr) and call_name(st.value) in ("warnings.warn", "warn")
+
+    def bound(self, node):
+        """0 / 0.0 -> lo, 100 / 100.0 -> hi"""
+        if isinstance(node, ast.Constant) and not isinstance(node.value, bool) and isinstance(node.value, (int, float)):
+            if node.value == 0:
+                return "lo"
+            if node.value == 100:
+                return "hi"
+        raise U("range check against a constant other than 0 / 100", node)
+
+    def range_test(self, node, var):
+        if isinstance(node, ast.BoolOp):
+            op = " || " if isinstance(node.op, ast.Or) else " && "
+            return "(" + op.join(self.range_test(v, var) for v in node.values) + ")"
+        if isinstance(node, ast.Compare) and len(node.ops) == 1 and type(node.ops[0]) in (ast.Lt, ast.LtE, ast.Gt, ast.GtE):
+            l, r = node.left, node.comparators[0]
+            op = CMP[type(node.ops[0])]
+            if isinstance(l, ast.Name) and l.id == var:
+                return f"decide (value {op} {self.bound(r)})"
+            if isinstance(r, ast.Name) and r.id == var:
+                return f"decide ({self.bound(l)} {op} value)"
+        raise U("range check is not built from `<edge> <op> 0|100`", node)
+
+    def sorted_loop(self, gen):
+        """`all(<P[ie] op P[ie]> for V in range(a, b))` -> (definition lines, call text)"""
+        if not (isinstance(gen, ast.GeneratorExp) and len(gen.generators) == 1 and not gen.generators[0].ifs
+                and isinstance(gen.generators[0].target, ast.Name) and call_name(gen.generators[0].iter) == "range"
+                and 1 <= len(gen.generators[0].iter.args) <= 2 and not gen.generators[0].iter.keywords):
+            raise U("sortedness test is not all(... for <name> in range(a, b))", gen)
+        g = gen.generators[0]
+        sc = Scope({}, {self.P: ("list", "bins")})
+        a = sc.ie(g.iter.args[0]) if len(g.iter.args) == 2 else "(0 : Int)"
+        b = sc.ie(g.iter.args[-1])
+        iv = lname(g.target.id)
+        sc.env[g.target.id] = ("int", iv)
+        e = gen.elt
+        if not (isinstance(e, ast.Compare) and len(e.ops) == 1 and type(e.ops[0]) in (ast.Lt, ast.LtE, ast.Gt, ast.GtE)):
+            raise U("sortedness test does not compare two neighbouring edges", e)
+        sides = []
+        for x in (e.left, e.comparators[0]):
+            if not (isinstance(x, ast.Subscript) and isinstance(x.value, ast.Name) and x.value.id == self.P):
+                raise U("sortedness test does not compare two entries of the edge list", x)
+            sides.append(sc.ie(x.slice))
+        d = ["/-- `all(%s)` in `__init__` (False at the first failing pair) -/" % ast.unparse(gen),
+             "def genSortedLoop (bins : List γ) : List Int → Except Err Bool",
+             "  | [] => .ok true",
+             f"  | {iv} :: rest_ =>",
+             f"    match pyIdx bins {sides[0]} with", "    | .error e => .error e", "    | .ok a1 =>",
+             f"      match pyIdx bins {sides[1]} with", "      | .error e => .error e", "      | .ok a2 =>",
+             f"        if decide (a1 {CMP[type(e.ops[0])]} a2) then genSortedLoop bins rest_",
+             "        else .ok false"]
+        return d, (a, b)
+
+    def dedup_block(self, stmts, item, U_, S_, st, fin):
+        """symbolic execution of the body of `for item in P`; st = (unique term, seen term)"""
+        if not stmts:
+            return fin(st)
+        s, rest = stmts[0], stmts[1:]
+        if isinstance(s, ast.Expr) and isinstance(s.value, ast.Call) and isinstance(s.value.func, ast.Attribute) \
+                and isinstance(s.value.func.value, ast.Name) and len(s.value.args) == 1 and not s.value.keywords \
+                and isinstance(s.value.args[0], ast.Name) and s.value.args[0].id == item:
+            tgt, meth = s.value.func.value.id, s.value.func.attr
+            if tgt == U_ and meth == "append":
+                return self.dedup_block(rest, item, U_, S_, (f"({st[0]} ++ [item])", st[1]), fin)
+            if tgt == S_ and meth == "add":
+                return self.dedup_block(rest, item, U_, S_, (st[0], f"(item :: {st[1]})"), fin)
+        if isinstance(s, ast.Assign) and len(s.targets) == 1 and isinstance(s.targets[0], ast.Name) \
+                and isinstance(s.value, ast.Constant) and isinstance(s.value.value, bool) \
+                and s.targets[0].id not in (U_, S_, item, self.P):
+            self.flags.add(s.targets[0].id)
+            return self.dedup_block(rest, item, U_, S_, st, fin)
+        if isinstance(s, ast.Pass):
+            return self.dedup_block(rest, item, U_, S_, st, fin)
+        if isinstance(s, ast.If):
+            t = s.test
+            neg = False
+            if isinstance(t, ast.UnaryOp) and isinstance(t.op, ast.Not):
+                t, neg = t.operand, True
+            if not (isinstance(t, ast.Compare) and len(t.ops) == 1 and isinstance(t.ops[0], (ast.In, ast.NotIn))
+                    and isinstance(t.left, ast.Name) and t.left.id == item
+                    and isinstance(t.comparators[0], ast.Name) and t.comparators[0].id == S_):
+                raise U("test in the duplicate-removal loop is not `item [not] in <set>`", s)
+            if isinstance(t.ops[0], ast.NotIn):
+                neg = not neg
+            cond = f"decide (item ∈ {st[1]})"
+            a = self.dedup_block(list(s.body) + rest, item, U_, S_, st, fin)
+            b = self.dedup_block(list(s.orelse) + rest, item, U_, S_, st, fin)
+            return [f"if {'!(' + cond + ')' if neg else cond} then"] + ind(a, 2) + ["else"] + ind(b, 2)
+        raise U("statement outside the fragment in the duplicate-removal loop: " + ast.dump(s)[:80], s)
+
+    def render(self):
+        body = body_of(self.fn)
+        ev_param = None
+        for st in body:
+            if isinstance(st, ast.Assign) and len(st.targets) == 1 and self_attr(st.targets[0], A_EVENTS) \
+                    and isinstance(st.value, ast.Name):
+                ev_param = st.value.id
+        rest_params = [p for p in self.params[1:] if p != ev_param]
+        if ev_param is None or len(rest_params) != 1:
+            raise U("cannot tell which constructor argument is the edge list", self.fn)
+        self.P = rest_params[0]
+        self.flags = set()
+        cur = "bins"          # Lean term of the current value of the edge list
+        nb = 0
+        lists, sets = {}, {}  # python local -> Lean term
+        lines = []            # emitted prefix lines (each continues on the next line, same indent handled below)
+        result = None
+
+        def emit(i, cur, lists, sets):
+            nonlocal nb, result
+            if i == len(body):
+                raise U("__init__ ends without calling __create_centrality_classes()")
+            st = body[i]
+            # argument type checks
+            if isinstance(st, ast.If) and not st.orelse and len(st.body) == 1 and isinstance(st.body[0], ast.Raise):
+                t = st.test
+                exc = st.body[0].exc
+                exc_name = exc.func.id if isinstance(exc, ast.Call) and isinstance(exc.func, ast.Name) else getattr(exc, "id", None)
+                if exc_name == "TypeError" and isinstance(t, ast.UnaryOp) and isinstance(t.op, ast.Not) \
+                        and call_name(t.operand) == "isinstance":
+                    return emit(i + 1, cur, lists, sets)
+                if exc_name == "ValueError" and call_name(t) == "any" and len(t.args) == 1 \
+                        and isinstance(t.args[0], ast.GeneratorExp):
+                    g = t.args[0]
+                    if not (len(g.generators) == 1 and not g.generators[0].ifs and isinstance(g.generators[0].target, ast.Name)
+                            and isinstance(g.generators[0].iter, ast.Name) and g.generators[0].iter.id == self.P):
+                        raise U("range check is not any(... for <name> in <edge list>)", t)
+                    test = self.range_test(g.elt, g.generators[0].target.id)
+                    return [f"if {cur}.any (fun value => {test}) then .error .value", "else"] \
+                        + ind(emit(i + 1, cur, lists, sets), 2)
+                raise U("a raise in __init__ outside the fragment", st)
+            # sortedness test + in-place sort
+            if isinstance(st, ast.If) and not st.orelse and isinstance(st.test, ast.UnaryOp) and isinstance(st.test.op, ast.Not) \
+                    and call_name(st.test.operand) == "all" and len(st.test.operand.args) == 1:
+                if self.sorted_def is not None or cur != "bins":
+                    raise U("second sortedness test in __init__", st)
+                acts = [x for x in st.body if not self.is_warn(x)]
+                if not (len(acts) == 1 and isinstance(acts[0], ast.Expr) and call_name(acts[0].value) == self.P + ".sort"):
+                    raise U("the sortedness test does not guard exactly `<edge list>.sort()`", st)
+                call = acts[0].value
+                rev = False
+                if call.args:
+                    raise U("sort() with positional arguments", call)
+                for kw in call.keywords:
+                    if kw.arg == "reverse" and isinstance(kw.value, ast.Constant) and isinstance(kw.value.value, bool):
+                        rev = kw.value.value
+                    else:
+                        raise U("sort() with a key / non-literal reverse flag", call)
+                self.sorted_def, (a, b) = self.sorted_loop(st.test.operand.args[0])
+                nb += 1
+                new = f"bins{nb}"
+                srt = "sortDesc" if rev else "sortAsc"
+                return [f"match genSortedLoop {cur} (pyRange {a} {b}) with", "| .error e => .error e", "| .ok t1 =>"] \
+                    + ind([f"let {new} := if !t1 then {srt} {cur} else {cur}"] + emit(i + 1, new, lists, sets), 2)
+            # locals of the duplicate removal
+            if isinstance(st, ast.Assign) and len(st.targets) == 1 and isinstance(st.targets[0], ast.Name):
+                n, v = st.targets[0].id, st.value
+                if n in (self.P, ev_param):
+                    raise U("a constructor argument is re-assigned", st)
+                if isinstance(v, ast.List) and not v.elts:
+                    return emit(i + 1, cur, {**lists, n: "[]"}, sets)
+                if call_name(v) == "set" and not v.args and not v.keywords:
+                    return emit(i + 1, cur, lists, {**sets, n: "[]"})
+                if isinstance(v, ast.Constant) and isinstance(v.value, bool):
+                    self.flags.add(n)
+                    return emit(i + 1, cur, lists, sets)
+                raise U("assignment outside the fragment in __init__: " + ast.dump(st)[:80], st)
+            if isinstance(st, ast.For):
+                if self.dedup_def is not None:
+                    raise U("second loop in __init__", st)
+                if not (isinstance(st.target, ast.Name) and isinstance(st.iter, ast.Name) and st.iter.id == self.P
+                        and not st.orelse):
+                    raise U("loop in __init__ is not `for <item> in <edge list>`", st)
+                for n in ast.walk(st):
+                    if isinstance(n, (ast.Break, ast.Continue, ast.Return, ast.Raise, ast.While)) or \
+                            (isinstance(n, ast.For) and n is not st):
+                        raise U("break / continue / raise / nested loop in the duplicate-removal loop", n)
+                used = {n.id for n in ast.walk(st) if isinstance(n, ast.Name)}
+                ul = [x for x in lists if x in used]
+                us = [x for x in sets if x in used]
+                if len(ul) != 1 or len(us) != 1 or lists[ul[0]] != "[]" or sets[us[0]] != "[]":
+                    raise U("the duplicate-removal loop does not use exactly one fresh list and one fresh set", st)
+                U_, S_ = ul[0], us[0]
+                un, sn = lname(U_), lname(S_)
+                bl = self.dedup_block(list(st.body), st.target.id, U_, S_, (un, sn),
+                                      lambda s_: [f"genDedupLoop rest_ {s_[0]} {s_[1]}"])
+                self.dedup_def = ["/-- the loop `for %s in %s` of `__init__`: `%s` (list) and `%s` (set, as a list) -/"
+                                  % (st.target.id, self.P, U_, S_),
+                                  "def genDedupLoop : List γ → List γ → List γ → List γ",
+                                  f"  | [], {un}, {sn} => {un}",
+                                  f"  | item :: rest_, {un}, {sn} =>"] + ind(bl, 4)
+                new_lists = {**lists, U_: un}
+                new_sets = {k: v for k, v in sets.items() if k != S_}
+                return [f"let {un} := genDedupLoop {cur} [] []"] + emit(i + 1, cur, new_lists, new_sets)
+            # warnings
+            if self.is_warn(st):
+                return emit(i + 1, cur, lists, sets)
+            if isinstance(st, ast.If) and not st.orelse and isinstance(st.test, ast.Name) and st.test.id in self.flags \
+                    and all(self.is_warn(x) for x in st.body):
+                return emit(i + 1, cur, lists, sets)
+            # attributes
+            tgt = val = None
+            if isinstance(st, ast.Assign) and len(st.targets) == 1:
+                tgt, val = st.targets[0], st.value
+            elif isinstance(st, ast.AnnAssign):
+                tgt, val = st.target, st.value
+            if tgt is not None and self_attr(tgt):
+                if tgt.attr == A_BINS:
+                    if not (isinstance(val, ast.Name) and val.id in lists and lists[val.id] != "[]"):
+                        raise U("self.centrality_bins_ is not the list built by the duplicate-removal loop", st)
+                    result = lists[val.id]
+                elif tgt.attr == A_EVENTS:
+                    pass
+                elif not (isinstance(val, ast.List) and not val.elts):
+                    raise U(f"self.{tgt.attr} is not initialised with []", st)
+                return emit(i + 1, cur, lists, sets)
+            if isinstance(st, ast.Expr) and isinstance(st.value, ast.Call) and self_attr(st.value.func) \
+                    and "create_centrality_classes" in st.value.func.attr:
+                if result is None:
+                    raise U("self.centrality_bins_ is not set before __create_centrality_classes()", st)
+                return [f".ok {result}"]
+            raise U("statement outside the fragment in __init__: " + ast.dump(st)[:80], st)
+
+        lines = emit(0, cur, lists, sets)
+        if self.sorted_def is None or self.dedup_def is None:
+            raise U("__init__ has no sortedness test / duplicate-removal loop of the fragment", self.fn)
+        d = ["/-- `__init__`: the list that becomes `centrality_bins_` (edge list `%s`; `lo` = 0, `hi` = 100) -/" % self.P,
+             "def genInit (lo hi : γ) (bins : List γ) : Except Err (List γ) :="] + ind(lines, 2)
+        return self.sorted_def, self.dedup_def, d
+
+
+def render(source: str, golden_init=None):
     tree = ast.parse(source)
     cls = next((n for n in tree.body if isinstance(n, ast.ClassDef) and n.name == CLS), None)
     if cls is None:
@@ -700,6 +957,18 @@ def render(source: str):
     check_init(cls, init, create, lookup)
     rank, loopdef, build = Create(source, create).render()
     lloop, ldef = Lookup(source, lookup).render()
+    init_tie = "T (rendered: sortedness test + sort, duplicate removal, range check; attributes / call order checked)"
+    try:
+        sdef, ddef, idef = Init(source, init).render()
+        init_lines = ["section clean",
+                      "variable {γ : Type} [LE γ] [LT γ] [DecidableLE γ] [DecidableLT γ] [DecidableEq γ]", ""] \
+            + sdef + [""] + ddef + [""] + idef + ["", "end clean"]
+    except Untranslatable as e:
+        # region-wise fallback: the edge cleaning of the committed golden model takes over (tie C for this region)
+        if golden_init is None:
+            raise
+        init_lines = golden_init
+        init_tie = "C (golden model of the edge cleaning; translator could not re-derive: %s); attributes / call order checked" % e
     L = ["-- GENERATED by harness/translate/centrality.py from src/sparkx/CentralityClasses.py -- do not edit",
          "import SparkxVerif.Core.Centrality", "",
          "set_option linter.unusedVariables false", "",
@@ -711,10 +980,22 @@ def render(source: str):
     L += renumber(loopdef) + [""] + renumber(build) + [""]
     if lloop:
         L += renumber(lloop) + [""]
-    L += renumber(ldef) + ["", "end order", "", "end SparkxVerif.Gen.Centrality"]
+    L += renumber(ldef) + ["", "end order", "", INIT_BEGIN] + init_lines + [INIT_END, "", "end SparkxVerif.Gen.Centrality"]
     regions = [dict(file="src/sparkx/CentralityClasses.py", region=f.name, lines=[f.lineno, f.end_lineno],
                     sha=pyexpr.src_hash(source, f), tie=t)
                for f, t in ((create, "T (rendered: guards, ranking, rank expression, class loop)"),
                             (lookup, "T (rendered completely)"),
-                            (init, "T (checked: attributes / call order) + C (edge cleaning)"))]
+                            (init, init_tie))]
     return "\n".join(L) + "\n", regions
+
+
+INIT_BEGIN = "-- BEGIN __init__ (edge cleaning)"
+INIT_END = "-- END __init__"
+
+
+def golden_init_section(golden_text):
+    """the lines between the markers in a committed Gen/Centrality.lean, or None"""
+    ls = golden_text.split("\n")
+    if INIT_BEGIN in ls and INIT_END in ls:
+        return ls[ls.index(INIT_BEGIN) + 1:ls.index(INIT_END)]
+    return None
